@@ -97,6 +97,17 @@ CHECKS = {
             'derived and the freshly constructed state; parents are snapshot before and after.',
             'Only public API is used; equality of token tuples and canonical tree dumps.',
             'DESIGN.md 5 C17'),
+    'C18': ('exploration',
+            'bounded-exhaustive token lists x option catalogue + Hypothesis lists; string-plus-mask '
+            'reference model and validity predicates',
+            'All argument-like token lists <= 4/5 tokens over an 11-token alphabet (separators in '
+            'every position, protected separators in groups/macros/comments) under up to 60 '
+            'split_at_chars option sets, all lists <= 4/5 tokens for split_at_node (32 option sets) '
+            'and <= 5/6 tokens for parse_keyval_content (8 policies), plus random lists with None '
+            'entries.',
+            'Top-level chars spans come from the strict parse; max_split with keep_empty=False is '
+            'judged by a validity predicate, by the letter of the statement.',
+            'DESIGN.md 5 C18'),
     'C20': ('exploration',
             'bounded-exhaustive enumeration against a counting reference model',
             'Every string <= 7 (quick) / <= 9 (thorough) over {a, NL, CR, space}, every position, '
